@@ -197,3 +197,13 @@ func Main() {
 		os.Exit(3)
 	}
 }
+
+// RepoDir is the tree the harness was built against: /repo, or the scratch
+// worktree named by VERIF_REPO (seeded-change self test).  Translators and
+// drivers that read Go sources or spawn `go` commands must use it.
+func RepoDir() string {
+	if d := os.Getenv("VERIF_REPO"); d != "" {
+		return d
+	}
+	return "/repo"
+}
